@@ -65,14 +65,27 @@ def _edges_once(sp, reverse=False):
     return [[j, i] if reverse else [i, j] for (i, j) in sp["edges"]]
 
 
-def _igraph_of(sp):
+def _igraph_of(sp, order="sorted"):
+    """igraph object of the specification; `order`: the edges as listed
+    (sorted), reversed, or interleaved from both ends with every second
+    undirected edge given as (j, i) - an igraph object or a foreign file may
+    list its edges in any order."""
     import igraph
-    g = igraph.Graph(n=sp["N"], edges=[tuple(e) for e in sp["edges"]],
-                     directed=sp["directed"])
+    edges = [tuple(e) for e in sp["edges"]]
+    if order == "reversed":
+        edges = edges[::-1]
+    elif order == "interleaved":
+        a, b = edges[::2], edges[1::2][::-1]
+        edges = [e for pair in zip(a, b) for e in pair] + \
+            a[len(b):] + b[len(a):]
+        if not sp["directed"]:
+            edges = [(j, i) if k % 2 else (i, j)
+                     for k, (i, j) in enumerate(edges)]
+    g = igraph.Graph(n=sp["N"], edges=edges, directed=sp["directed"])
     if sp["w_in"] is not None:
         g.vs["node_weight_nsi"] = list(sp["weights"])
     for name, M in sp["attrs"].items():
-        g.es[name] = [M[i][j] for (i, j) in sp["edges"]]
+        g.es[name] = [M[i][j] for (i, j) in edges]
     return g
 
 
@@ -282,6 +295,30 @@ def fam_paths(case):
                   via_setter(sps.csr_matrix)))
     paths.append(("FromIGraph",
                   lambda: Network.FromIGraph(_igraph_of(sp), 3)))
+    paths.append(("FromIGraph[edges reversed]",
+                  lambda: Network.FromIGraph(_igraph_of(sp, "reversed"), 3)))
+    paths.append(("FromIGraph[edges interleaved]",
+                  lambda: Network.FromIGraph(
+                      _igraph_of(sp, "interleaved"), 3)))
+
+    def weight_sharing():
+        # a network built from the caller's float64 array, a copy of it, an
+        # in-place update of the COPY's weights: the original (and the
+        # caller's array) keep their values, total and mean
+        if sp["w_in"] is None:
+            return build(adjacency=sp["A"])()
+        w_in = np.array(sp["weights"], dtype=float)
+        keep = w_in.copy()
+        net = Network(adjacency=A.copy(), directed=sp["directed"],
+                      node_weights=w_in, silence_level=3)
+        _decorate(net, sp)
+        c = net.copy()
+        c.node_weights /= 2.0
+        if not np.array_equal(w_in, keep):
+            raise AssertionError("caller's weight array changed by an "
+                                 "in-place update of a copy: %s" % w_in)
+        return net
+    paths.append(("copy()+in-place weights on the copy", weight_sharing))
     for path, f in paths:
         J.judge("Network", path, outcome(f))
     # the constructor and the existing-object variant of set_edge_list share
